@@ -8,12 +8,12 @@ import histories as H
 import seqmodel as sm
 
 ID = 'C15'
-GEN_SECTIONS = ['GenDedup', 'FP_dedup', 'FP_event_lib', 'FP_get_block']
+GEN_SECTIONS = ['GenDedup', 'GenFile', 'FP_dedup', 'FP_event_lib', 'FP_get_block']
 COQ_TARGETS = ['Props/C15.vo']
 LEVEL = 'proof'
 MANIFEST = {
     'text': 'Theorems (Coq, Props/C15.v): for EventLibrary.remove_duplicates over ANY key type and ANY rounding function: the id mapping is total on the old ids and points to existing new ids; the new library holds exactly the rounded old data at the mapped id; two entries are merged IF AND ONLY IF their rounded data are equal; new ids are dense 1..n in ascending order of the first member of each class, whose type tag is kept; the result is a well-formed library; for an idempotent rounding a second pass returns the identical library and the identity mapping. Rounding: round-to-n-decimals is idempotent with error <= 0.5*10^-n; the significant-digit rounding has relative error <= 5*10^-dig (of |d|+1e-12). The digit tuples are re-read from sequence.py on every run and the theorems about columns are stated over them. Sequence level (dedup_core): for a store with valid references the result exists, its references are valid, the block table keeps keys, order and durations, and every block decodes to the rounded rows / rounded shape payloads of the original block; copy leaves the original state unchanged; in place = copy. The RF-delay exception (6 significant digits instead of 1 us for delays >= 1 s) is a kernel-checked witness. Sequences full of near-duplicates around every column\'s rounding threshold are run through the implementation and the extracted model (libraries, id maps and block table compared exactly).',
-    'note': 'Trusted: Coq kernel; translator patterns + source fingerprints of Sequence.remove_duplicates / EventLibrary.remove_duplicates / get_block; extraction + driver; numeric extraction inside register_* taken from the implementation. Partial: idempotence of the significant-digit rounding is proved under the hypothesis that the exponent found for the rounded value does not exceed the one of the input (the carry-to-a-power-of-ten case is argued on paper in DESIGN.md C02 and sampled). Hypotheses of the sequence-level theorem: ids are unique, positive dict keys, no empty type tag stored, rounding keeps the shape-id columns of rows whose shape ids are integers (proved for the generated tuples), merged rows carry equal type tags (necessary: witness with two RF rows of different use). Known finding: RF delay >= 1 s rounded to 6 significant digits.',
+    'note': 'Trusted: Coq kernel; translator patterns + source fingerprints of Sequence.remove_duplicates / EventLibrary.remove_duplicates / get_block; extraction + driver; numeric extraction inside register_* taken from the implementation. No partial theorem is left: idempotence of the significant-digit rounding is proved for every rational including the carry to the next power of ten, so a second duplicate removal with the source tuples is the identity for every library with unique ids. Duplicate removal identifies two values exactly when the printer prints them identically for |x| >= 10^(dig-12) (1e-6 for 6 digits, 1e-3 for 9 digits) or x = 0; below that range it is false (kernel-checked counterexamples: the 1e-12 offset makes duplicate removal coarser). Hypotheses of the sequence-level theorems: ids are unique positive dict keys, no empty type tag stored, references valid (and, for the statement that every block decodes, the mandatory shapes present and every block has a duration and a walkable extension chain), merged rows carry equal type tags (automatic for gradients; necessary for RF rows: witness with two RF rows of different use). Known findings: RF delay >= 1 s rounded to 6 significant digits; RF rows within the rounding but of different use are merged.',
     'technique': 'Rocq/Coq proof (loop invariant over the sorted id list, canonical-form argument for idempotence, exact rational rounding lemmas) + model/implementation correspondence on near-duplicate sequences',
 }
 BUDGET = {'quick': 200, 'thorough': 2400}
@@ -22,7 +22,7 @@ RULE = ('sequences of 3-25 blocks built from a pool in which every numeric colum
         '(x0.4, x1, x3 of: 6th significant digit of amplitudes/offsets/phases, 1 us of delays and trapezoid times, 1 ns of '
         'dwell, 9th digit of raw shape samples), shapes shared between gradients, repeated events; then remove_duplicates() '
         '(copy), again on the copy, and in place. Oracles: every block decodes to the same events within the declared '
-        'rounding, the original store is bit-identical afterwards, all referenced ids exist, ids are dense and ascending, '
+        'rounding, the original store is bit-identical afterwards and decodes as before, all referenced ids exist, every type tag (use of RF entries, t/g of gradients) referenced by a block is unchanged, ids are dense and ascending, any exception of get_block / remove_duplicates is an oracle failure, '
         'second application is the identity, in-place equals copy. Correspondence: the extracted Coq model (digit tuples read '
         'from the source) must produce the same libraries, id maps and block table. non-trivial = dedup merged at least one pair')
 TRUSTED = ['numeric extraction inside register_* taken from the implementation',
@@ -38,6 +38,8 @@ def perturb(rng, x, unit):
 
 
 class NearPool(H.Pool):
+    uses = [None]          # set per case by gen_case: the `use` values RF pulses of this case may carry
+
     def trap(self, ch=None, delay=None):
         import pypulseq as pp
         r = self.rng
@@ -59,8 +61,11 @@ class NearPool(H.Pool):
         import pypulseq as pp
         r = self.rng
         flip = perturb(r, r.choice([math.pi / 2, 0.3]), 0.9e-6)
+        use = r.choice(self.uses)
         kw = dict(delay=perturb(r, r.choice([1e-4, 1.5e-4]), 0.9e-6), freq_offset=perturb(r, 123.456, 123.456e-6 * 0.9),
                   phase_offset=perturb(r, 0.5, 0.45e-6), system=self.sys)
+        if use is not None:
+            kw['use'] = use
         if r.random() < 0.7:
             return pp.make_block_pulse(flip, duration=r.choice([1e-4, 2e-4]), **kw)
         return pp.make_sinc_pulse(flip, duration=r.choice([4e-5, 6e-5]), time_bw_product=2, **kw)
@@ -81,8 +86,14 @@ def close_amp(a, b):
     return abs(a - b) <= 5.5e-6 * max(abs(a), abs(b)) + 1e-12
 
 
-def block_close(b1, b2, seq):
-    """b2 (after dedup) equals b1 up to the declared rounding"""
+def block_close(b1, b2, seq, exact=False):
+    """b2 (after dedup) equals b1 up to the declared rounding; exact=True: identical (the untouched original)"""
+    if exact:
+        import common
+        if hasattr(sm, 'block_dump'):
+            return None if sm.block_dump(b1) == sm.block_dump(b2) else 'decoded block differs'
+        d = block_close(b1, b2, seq)
+        return d
     for nm in ('gx', 'gy', 'gz'):
         g1, g2 = getattr(b1, nm), getattr(b2, nm)
         if (g1 is None) != (g2 is None):
@@ -155,6 +166,8 @@ def refs_ok(seq):
             if s != 0 and s not in seq.shape_library.data:
                 return 'rf %d references missing shape %r' % (k, s)
     for k, d in seq.grad_library.data.items():
+        if seq.grad_library.type.get(k) not in ('t', 'g'):
+            return 'grad %d has type tag %r' % (k, seq.grad_library.type.get(k))
         if seq.grad_library.type[k] == 'g':
             for s in d[1:3]:
                 if s != 0 and s not in seq.shape_library.data:
@@ -166,9 +179,54 @@ def refs_ok(seq):
     return None
 
 
+def tags_same(seq, s2):
+    """type tags (`use` of RF entries, 't'/'g' of gradient entries) referenced by every block, before vs after.
+    Returns (signature-kind, text) or None.  kind 'merge': the tag differs AND the new entry is shared with an old entry
+    that carried the new tag (two differently tagged entries were merged: the recorded finding); kind 'tag': any other
+    change of a tag (dropped, replaced)."""
+    cols = ((1, 'rf_library'), (2, 'grad_library'), (3, 'grad_library'), (4, 'grad_library'))
+    if list(seq.block_events.keys()) != list(s2.block_events.keys()):
+        return ('tag', 'block ids changed')
+    for col, name in cols:
+        l1, l2 = getattr(seq, name), getattr(s2, name)
+        classes = {}
+        for i, ev in seq.block_events.items():
+            a, b = int(ev[col]), int(s2.block_events[i][col])
+            if a:
+                classes.setdefault(b, set()).add(l1.type.get(a))
+        for i, ev in seq.block_events.items():
+            a, b = int(ev[col]), int(s2.block_events[i][col])
+            if (a == 0) != (b == 0):
+                return ('tag', 'block %d column %d: id %d -> %d' % (i, col, a, b))
+            if a == 0:
+                continue
+            t1, t2 = l1.type.get(a), l2.type.get(b)
+            if t1 != t2:
+                kind = 'merge' if (name == 'rf_library' and t2 in classes.get(b, ()) and len(classes[b]) > 1) else 'tag'
+                return (kind, 'block %d column %d: type tag %r -> %r (old id %d, new id %d)' % (i, col, t1, t2, a, b))
+    return None
+
+
+def guarded(ctx, sig, case, what, f):
+    """run one call into the implementation on a store the generator built: an exception is an oracle failure with the
+    concrete history as replay, never a harness error.  Returns (ok, value)."""
+    try:
+        return True, f()
+    except Exception as e:  # noqa: BLE001
+        import traceback
+        ctx.fail(sig, case, {'call': what, 'exception': repr(e)[:300], 'where': traceback.format_exc().strip().split('\n')[-3:][0][:200]})
+        return False, None
+
+
+USES = ['excitation', 'refocusing', 'inversion', 'saturation', 'preparation', None]
+
+
 def gen_case(rng, tier, rf_long_delay=False):
     system = H.mk_system(rng, rng.choice([0, 1]))
     pool = NearPool(rng, system)
+    # one `use` per case (so that near-equal RF pulses may be merged without changing content) in most cases; in the
+    # rest two uses are mixed (merging then changes the use of a block: recorded finding C15/rf-use-merged)
+    pool.uses = [rng.choice(USES)] if rng.random() < 0.85 else rng.sample(USES, 2)
     tw = H.Twin(system)
     n = rng.randint(3, 25 if tier == 'thorough' else 14)
     for _ in range(n):
@@ -195,50 +253,87 @@ def gen_case(rng, tier, rf_long_delay=False):
 def run_one(ctx, rng, n, tag):
     tw = gen_case(rng, ctx.tier)
     seq = tw.off                      # oracle reads on the cache-off twin
-    case = {'rng_stream': tag, 'index': n, 'seed': ctx.seed, 'tier': ctx.tier, 'blocks': len(seq.block_events)}
+    # the replay carries the concrete history (operation tokens with exact rationals) besides the generator coordinates
+    case = {'rng_stream': tag, 'index': n, 'seed': ctx.seed, 'tier': ctx.tier, 'blocks': len(seq.block_events),
+            'history': list(tw.ops)}
     before = sm.state_dump(seq)
-    blocks_before = {i: seq.get_block(i) for i in seq.block_events}
-    try:
-        s2 = seq.remove_duplicates()
-    except Exception as e:  # noqa: BLE001
-        ctx.fail('C15/raises', case, {'exception': repr(e)})
-        return tw, case
+    ok, blocks_before = guarded(ctx, 'C15/decode-raises', case, 'get_block before remove_duplicates',
+                                lambda: {i: seq.get_block(i) for i in seq.block_events})
+    if not ok:
+        ctx.evaluated((tag, n, tw.model_line()[:3000]))
+        return None, case
+    ok, s2 = guarded(ctx, 'C15/raises', case, 'remove_duplicates()', lambda: seq.remove_duplicates())
+    if not ok:
+        ctx.evaluated((tag, n, tw.model_line()[:3000]))
+        return None, case
     after = sm.state_dump(seq)
     if H.cmp_state_plain(before, after):
         ctx.fail('C15/original-modified', case, {'what': H.cmp_state_plain(before, after)})
+    # ... including what the original decodes to (a shared, rewritten library entry shows here)
+    for i in seq.block_events:
+        ok, b = guarded(ctx, 'C15/original-modified', case, 'get_block(%d) of the original after remove_duplicates()' % i,
+                        lambda: seq.get_block(i))
+        if not ok:
+            break
+        d = block_close(blocks_before[i], b, seq, exact=True)
+        if d:
+            ctx.fail('C15/original-modified', case, {'block': i, 'what': 'original decodes differently: ' + d})
+            break
     merged = sum(len(getattr(seq, l).data) - len(getattr(s2, l).data) for l in ('rf_library', 'grad_library', 'adc_library', 'shape_library'))
     ctx.evaluated((tag, n, tw.model_line()[:3000]), nontrivial=merged > 0)
     ctx.count('merged_entries', merged)
     ctx.count('cases.with_merge' if merged else 'cases.no_merge')
-    r = refs_ok(s2)
-    if r:
+    ctx.count('shape_ids_shift' if len(s2.shape_library.data) < len(seq.shape_library.data) else 'shape_ids_fixed')
+    ok, r = guarded(ctx, 'C15/refs', case, 'reference scan of the result', lambda: refs_ok(s2))
+    if ok and r:
         ctx.fail('C15/refs', case, {'what': r})
+    ok, tg = guarded(ctx, 'C15/type-tag', case, 'type tag scan', lambda: tags_same(seq, s2))
+    use_merged = False
+    if ok and tg:
+        if tg[0] == 'merge':
+            use_merged = True
+            ctx.count('kf.rf-use-merged.random')
+            ctx.fail(KF_USE_SIG, case, {'what': tg[1]})
+        else:
+            ctx.fail('C15/type-tag', case, {'what': tg[1]})
     for i in seq.block_events:
-        try:
-            b2 = s2.get_block(i)
-        except Exception as e:  # noqa: BLE001
-            ctx.fail('C15/decode-after', case, {'block': i, 'exception': repr(e)})
+        ok, b2 = guarded(ctx, 'C15/decode-raises', case, 'get_block(%d) after remove_duplicates()' % i, lambda: s2.get_block(i))
+        if not ok:
             break
         d = block_close(blocks_before[i], b2, seq)
         if d:
             sig = 'C15/content'
             if d.startswith('rf.delay') and blocks_before[i].rf.delay >= 1.0:
                 sig = KF5_SIG
+            if d == 'rf.use' and use_merged:
+                sig = KF_USE_SIG
             ctx.fail(sig, case, {'block': i, 'what': d})
             break
-    s3 = s2.remove_duplicates()
-    d = H.cmp_state_plain(sm.state_dump(s2), sm.state_dump(s3))
-    if d:
-        ctx.fail('C15/not-idempotent', case, {'what': d})
+    ok, s3 = guarded(ctx, 'C15/raises', case, 'remove_duplicates() of the result', lambda: s2.remove_duplicates())
+    if ok:
+        d = H.cmp_state_plain(sm.state_dump(s2), sm.state_dump(s3))
+        if d:
+            ctx.fail('C15/not-idempotent', case, {'what': d})
+    # (write() is not called here: the near-threshold timings of this generator are deliberately off the block raster,
+    #  which write() refuses by an assertion; C01/C02 exercise write on raster-valid sequences)
     # model ops: copy, in place, copy again
-    tw.dedup_copy()
-    tw.dedup_in_place()
-    tw.dedup_copy()
-    d = H.cmp_state_plain(sm.state_dump(tw.off), sm.state_dump(s2))
+    def model_ops():
+        tw.dedup_copy()
+        tw.dedup_in_place()
+        tw.dedup_copy()
+        return H.cmp_state_plain(sm.state_dump(tw.off), sm.state_dump(s2))
+    ok, d = guarded(ctx, 'C15/decode-raises', case, 'copy / in place / copy on the twins', model_ops)
+    if not ok:
+        return None, case
+    bad_twin = [r for r in tw.records[-3:] if r['outcome'][0] != 'ok']
+    if bad_twin:
+        ctx.fail('C15/raises', case, {'call': 'remove_duplicates on the twins', 'outcome': repr(bad_twin[0]['outcome'])[:200]})
+        return None, case
     if d:
         ctx.fail('C15/in-place-differs-from-copy', case, {'what': d})
     if n % 60 == 0:
-        ctx.sample({'case': case, 'merged_entries': merged, 'lib_sizes_before': [len(l['data']) for l in before['libs']],
+        ctx.sample({'case': {k: v for k, v in case.items() if k != 'history'}, 'merged_entries': merged,
+                    'lib_sizes_before': [len(l['data']) for l in before['libs']],
                     'lib_sizes_after': [len(l['data']) for l in sm.state_dump(s2)['libs']]})
     return tw, case
 
@@ -323,7 +418,7 @@ def run(ctx):
             ctx.notes.append('time budget reached after %d cases' % n)
             break
         tw, case = run_one(ctx, rng, n, 'near')
-        if ctx.model_available:
+        if ctx.model_available and tw is not None:
             batch.append((tw, case))
         if len(batch) >= 40:
             flush(ctx, batch)
